@@ -867,13 +867,20 @@ func c09R4(p *engine.Prog, r *engine.Report) {
 		}
 		r.Check(ok, "C09-R4", "AppState.ResetTo|"+spec.typ+" reset and its error propagated", p.Pos(art.Pos()), "success only behind nil", "a tree that could not be reset is reported as reset")
 		if f := mustFunc(p, r, "core/state", spec.typ+".ResetTo"); f != nil {
-			ow := false
+			// on every path that reports success
+			var ows []ssa.Instruction
 			for _, cc := range engine.Calls(f) {
 				if engine.CallNameIs(cc, "LoadVersionForOverwriting") {
-					ow = true
+					ows = append(ows, cc)
 				}
 			}
-			r.Check(ow, "C09-R4", spec.typ+".ResetTo|uses the overwriting loader", p.Pos(f.Pos()), "LoadVersionForOverwriting", "a reset keeps the abandoned versions above the target: saving a different block at those heights fails")
+			ow := len(ows) > 0
+			for _, ret := range successReturns(f) {
+				if !engine.MustPassInstr(f, ret, ows) {
+					ow = false
+				}
+			}
+			r.Check(ow, "C09-R4", spec.typ+".ResetTo|uses the overwriting loader", p.Pos(f.Pos()), "LoadVersionForOverwriting on every success path", "some successful reset keeps the abandoned versions above the target on disk: saving a different block at those heights fails")
 		}
 		// retention
 		if f := mustFunc(p, r, "core/state", spec.typ+".CommitTree"); f != nil {
